@@ -260,6 +260,23 @@ def _check_kl(ck, inst, f, p, t, mname, cls):
         tp, mp = a.get("target_probs"), a.get("nn_probs")
         if tp is None or mp is None:
             continue
+        # both arguments are distributions over the same N basis states
+        e_ = c[5]
+        sh_t, sh_m = getattr(e_.get("target_probs"), "shape", None), getattr(e_.get("nn_probs"), "shape", None)
+        if sh_t is not None and sh_m is not None:
+            ck.check(tuple(sh_t) == tuple(sh_m) and len(sh_t) == 1, "C10.R3", inst + ":target and model distributions over the same basis states [%s]" % _c(p), f.site(),
+                     "the single-basis KL compares a target array of shape %s with model probabilities of shape %s: the target's Born distribution has one entry per basis state%s"
+                     % (sh_t, sh_m, " (for a density matrix: its diagonal, not |rho_ij|^2)" if len(sh_t) == 2 else ""))
+        if mname.endswith("no-bases"):
+            tr_, ti_ = T.sym("targetr"), T.sym("targeti")
+            want_t = tr_ * tr_ + ti_ * ti_ if cls != "DensityMatrix" else T.app("diagonal", tr_)
+            if tp == want_t:
+                ck.ok("C10.R3", inst + ":target Born distribution [%s]" % _c(p), f.site(), got=tp)
+            elif cls == "DensityMatrix" and tp == tr_ * tr_ + ti_ * ti_:
+                ck.violation("C10.R3", inst + ":target Born distribution [%s]" % _c(p), f.site(),
+                             "for a density-matrix target the reference-basis distribution is taken as |rho_ij|^2 (all N x N entries) instead of the diagonal of rho")
+            else:
+                ck.undecided("C10.R3", inst + ":target Born distribution [%s]" % _c(p), f.site(), "target probabilities %r not recognised" % (tp,))
         ok = (not model_dep(tp)) and model_dep(mp)
         swapped = model_dep(tp) and not model_dep(mp)
         ck.check(True if ok else (False if swapped else None), "C10.R3", inst + ":KL(target || model) argument order [%s]" % _c(p), f.site(),
